@@ -7,7 +7,7 @@ use xeh::prelude::*;
 
 pub const DEF: PropDef = PropDef {
     id: "C13",
-    rule: "mode A (7/8 of the cases): a word from a typed table covering the native dictionary (minus the tag words, the printing words that honour #fmt, the stubbed external words and exit) is run on a clone of one prepared interpreter (binary input open with the cursor inside it, output intercepted) \
+    rule: "mode A (7/8 of the cases): a word from a typed table covering the native dictionary (minus the tag words, the stubbed external words and exit; the printing words that honour the formatting tag - print println .s concat join str>number - only with tag maps that do not contain #fmt) is run on a clone of one prepared interpreter (binary input open with the cursor inside it, output intercepted) \
 once with plain arguments and once with the same arguments wrapped in generated tag maps (empty, scalar, tags on tags, with a #fmt entry; independently also on elements nested inside vector/map arguments). Arguments come from tuples that make the word succeed, and 1 case in 5 from arbitrary types so that the failing side is compared too. \
 Oracle: both succeed or both fail with the same error kind; result stacks equal cell by cell under the language's equality; input/offset/output/byte-order variables and stdout equal; for the computing words no result carries tags at top level. \
 mode B: a history of with-tags / insert-tag / remove-tag / get-tag / tags on a value against an association-list model: the value stays equal to the original, tags returns exactly the model map. \
@@ -146,6 +146,13 @@ const TABLE: &[(&str, &str)] = &[
     ("base32hex", "By|S|Vb"),
     ("base64", "By|S|Vb"),
     ("zero85", "By|S|Vb"),
+    // printing words that honour the formatting tag: checked with tag maps that do not contain #fmt
+    ("print", "A"),
+    ("println", "A"),
+    (".s", "A A"),
+    ("concat", "Vs|V"),
+    ("join", "Vs S|V S"),
+    ("str>number", "Snum"),
     ("base32>", "E0"),
     ("base32hex>", "E1"),
     ("base64>", "E2"),
@@ -193,6 +200,7 @@ fn gen_arg(ch: &mut Choices, code: &str) -> V {
         "R" => V::real([0.0, 1.5, -2.25, 100.5, -0.0, 3.0][ch.below(6)]),
         "R1" => V::real([1.5, -2.0, 0.5][ch.below(3)]),
         "S" => V::Str(val::STRS[ch.below(val::STRS.len())].to_string()),
+        "Snum" => V::Str(["12", "-7", "1.5", "0", "zz", ""][ch.below(6)].to_string()),
         "Sh" => V::Str(["", "00", "ff 0a", "1 2 3", "dead beef"][ch.below(5)].to_string()),
         "F" => V::Flag(ch.bool()),
         "Ft" => V::Flag(true),
@@ -263,8 +271,14 @@ fn gen_arg(ch: &mut Choices, code: &str) -> V {
     }
 }
 
+thread_local! {
+    static NO_FMT: std::cell::Cell<bool> = std::cell::Cell::new(false);
+}
+const FMT_WORDS: [&str; 6] = ["print", "println", ".s", "concat", "join", "str>number"];
+
 fn gen_tagmap(ch: &mut Choices) -> Vec<(V, V)> {
-    match ch.weighted(&[2, 4, 2, 2, 1]) {
+    let w_fmt = if NO_FMT.with(|c| c.get()) { 0 } else { 2 };
+    match ch.weighted(&[2, 4, 2, w_fmt, 1]) {
         0 => vec![],
         1 => vec![(V::Str("k".into()), val::gen_scalar(ch))],
         2 => vec![(V::Str("len".into()), V::Int(8)), (V::Str("big".into()), V::Flag(true))],
@@ -328,6 +342,7 @@ fn mode_a(ch: &mut Choices, ctx: &CaseCtx, out: &mut CaseOut) {
     let codes: Vec<&str> = alt.split(' ').filter(|s| !s.is_empty()).collect();
     let arbitrary = !codes.is_empty() && ch.chance(1, 5);
     val::set_safe(true);
+    NO_FMT.with(|c| c.set(FMT_WORDS.contains(&word)));
     // (map and key arguments keep their type: a key of another class in the same map is C12's known finding;
     //  the width argument of int!/uint! is an allocation size and stays modest)
     let args: Vec<V> = codes.iter().map(|c| if arbitrary && *c != "Ks" && *c != "M" && *c != "Iw" && ch.chance(1, 2) { val::gen_value(ch, 1) } else { gen_arg(ch, c) }).collect();
@@ -342,6 +357,7 @@ fn mode_a(ch: &mut Choices, ctx: &CaseCtx, out: &mut CaseOut) {
         }
     }
     val::set_safe(false);
+    NO_FMT.with(|c| c.set(false));
     let render = format!("word: {}\nplain : {}\ntagged: {}", word, args.iter().map(val::src).collect::<Vec<_>>().join("  "), targs.iter().map(val::src).collect::<Vec<_>>().join("  "));
     out.hash = hash_of(&(word, args.clone(), targs.clone()));
     out.class(if arbitrary { "arbitrary-arguments" } else { "typed-arguments" });
@@ -360,9 +376,9 @@ fn mode_a(ch: &mut Choices, ctx: &CaseCtx, out: &mut CaseOut) {
     if ku != kt {
         fail(out, "succeeds/fails differently with tagged arguments", format!("plain: {}  tagged: {}", xs::render_res(&u.res), xs::render_res(&t.res)));
     } else if ku == Kind::Ok {
-        if u.stack.len() != t.stack.len() || u.stack.iter().zip(t.stack.iter()).any(|(a, b)| a != b) {
+        if u.stack.len() != t.stack.len() || u.stack.iter().zip(t.stack.iter()).any(|(a, b)| a != b && !veq(&val::of_cell(a), &val::of_cell(b))) {
             fail(out, "result differs with tagged arguments", format!("plain: [{}]\ntagged: [{}]", u.stack.iter().map(xs::render).collect::<Vec<_>>().join(" | "), t.stack.iter().map(xs::render).collect::<Vec<_>>().join(" | ")));
-        } else if u.vars.iter().zip(t.vars.iter()).any(|(a, b)| a.1 != b.1) {
+        } else if u.vars.iter().zip(t.vars.iter()).any(|(a, b)| a.1 != b.1 && !veq(&val::of_cell(&a.1), &val::of_cell(&b.1))) {
             let d = u.vars.iter().zip(t.vars.iter()).find(|(a, b)| a.1 != b.1).unwrap();
             fail(out, "cursor/output variables differ with tagged arguments", format!("{}: plain {} tagged {}", d.0 .0, xs::render(&d.0 .1), xs::render(&d.1 .1)));
         } else if u.stdout != t.stdout {
